@@ -3345,9 +3345,8 @@ func (s *TreeShapeListener) ExitAlias(ctx *parser.AliasContext) {
 	s.currentTypePath.Pop()
 	s.fieldname = []string{}
 	s.typemap = map[string]*sysl.Type{}
-	if ctx.Annotation(0) != nil {
-		s.popScope()
-	}
+	// EnterAlias always pushes the alias' scope
+	s.popScope()
 }
 
 // EnterApp_decl is called when production app_decl is entered.
